@@ -20,6 +20,7 @@ EXPLANATION = (
     "C03.V5: a disclosed member is inserted into the map under construction for the object whose `_sd` array is being processed, and a disclosed array element is pushed, in iteration order, to the array under construction."
     " C03.V6 also: with its parameter assumed to be an Array / an Object (A6 over the JSON-kind switch), no Ok exit of the full walker returns a copy of the parameter: no guard or fast path lets a container reach the scalar arm."
     " C03.V1 pairing is symmetric (neither insert is reachable without the other within an iteration) and the maps may be built in locals that are moved into the fields. C03.V2 accepts the reserved member found by iterating the object and comparing the key, guarded through a correlated Option."
+    " C03.V1 also accepts the two-phase form (decode every presented string into a vector by one push per element, then zip the strings with that vector: the second component is the image of the first) and the duplicate test by the result of the insert itself (`if map.insert(k, v).is_some() { return Err }`)."
 )
 ASSUMPTIONS = [
     "SHA-256 collision resistance; base64/serde_json behave as documented",
